@@ -67,7 +67,7 @@ REPLY_PARAM = {  # data-set parameter of the response primitive (PS3.7 9.1.x / 1
 }
 N_WITH_REPLY = ("n_event_report", "n_get", "n_set", "n_action", "n_create")
 WRONG = {  # kinds used as "message of another type" per op (never the op's own; C_GET/C_MOVE not mixed)
-    "c_find": ["C_ECHO", "C_GET", "N_SET", "C_ECHO_RQ", "C_STORE_RQ"],
+    "c_find": ["C_ECHO", "C_GET", "C_MOVE", "C_STORE", "N_SET", "C_ECHO_RQ", "C_STORE_RQ"],
     "c_get": ["C_ECHO", "C_FIND", "N_GET", "C_ECHO_RQ"],
     "c_move": ["C_ECHO", "C_FIND", "N_GET", "C_ECHO_RQ"],
 }
@@ -368,6 +368,9 @@ def check_scu(ctx, case):
     classes = [f"op:{op}", "ts:" + ts] + sorted({"exp:" + e["cls"] for e in exp})
     if len(script) > consumed:
         classes.append("leftovers")
+    for it in script[:consumed]:
+        if it["t"] == "wrong":
+            classes.append(f"wrong:{op}:{it['kind']}" + ("" if it["status"] is not None else ":no-status"))
     if nsub:
         classes.append("substore-interleaved")
     if case.get("peer_abort"):
@@ -536,7 +539,8 @@ def strategies():
 
     @st.composite
     def case(draw):
-        op = draw(st.sampled_from(sorted(OPS)))
+        # the three iterator operations have by far the largest behaviour space: half of the cases
+        op = draw(st.sampled_from(GEN_OPS)) if draw(st.booleans()) else draw(st.sampled_from(sorted(OPS)))
         if op in GEN_OPS and draw(st.integers(0, 5)) > 0:
             # structured: pending prefix (+ interleaved sub-operations), terminator, extras
             script = []
@@ -571,4 +575,4 @@ def run(ctx):
     import warnings
 
     warnings.simplefilter("ignore")
-    ctx.hyp("scu", strategies(), 2500 if ctx.quick else 20000)
+    ctx.hyp("scu", strategies(), 6000 if ctx.quick else 30000)
